@@ -8,6 +8,7 @@ import traceback
 
 from . import common
 from .common import MachineryError, canon, first_diff
+from .rng import HarnessError
 
 
 class Prop:
@@ -81,9 +82,17 @@ class Prop:
             return canon(self.impl(case))
         except MachineryError:
             raise
-        except Exception as e:  # the real code raised: that is an observation
+        except Exception as e:
             tb = traceback.format_exc().strip().split("\n")
-            return {"exc": type(e).__name__, "msg": str(e)[:300], "where": tb[-3:-1]}
+            frames = traceback.extract_tb(e.__traceback__)
+            harness = str(common.VERIF / "harness")
+            last = frames[-1].filename if frames else ""
+            emulated_stdlib = last.endswith("core/rng.py") and not isinstance(e, HarnessError)
+            if last.startswith(harness) and not emulated_stdlib:
+                # raised by the harness's own code (a hook point that is gone, a callback that met something it does not
+                # understand): the implementation was NOT observed — never an oracle verdict, always a broken correspondence
+                return {"harness_error": f"{type(e).__name__}: {str(e)[:200]}", "where": tb[-3:-1]}
+            return {"exc": type(e).__name__, "msg": str(e)[:300], "where": tb[-3:-1]}   # the real code raised: an observation
 
 
 def _hist_add(hist, k, n=1):
@@ -124,11 +133,28 @@ def shrink_case(prop, case, still_fails, limit=300):
     return case
 
 
+def judge(prop, case, obs, unjudged, i):
+    """the oracle's verdict on one observation; [] when it holds OR when it cannot be judged (recorded in `unjudged`)"""
+    if isinstance(obs, dict) and "harness_error" in obs:
+        unjudged.append((i, "the harness could not observe the implementation: " + obs["harness_error"]))
+        return []
+    try:
+        return prop.oracle(case, obs)
+    except MachineryError:
+        raise
+    except Exception as e:
+        unjudged.append((i, f"the oracle cannot judge this observation: {type(e).__name__}: {e}"))
+        return []
+
+
 def compare(prop, cases, obss):
     """run the model on the same cases; return list of (index, diff, model_obs)"""
     reqs, idx = [], []
     mism = []
     for i, (c, o) in enumerate(zip(cases, obss)):
+        if isinstance(o, dict) and "harness_error" in o:
+            mism.append((i, "the harness could not observe the implementation: " + o["harness_error"], None))
+            continue
         try:
             r = prop.request(c, o)
         except MachineryError:
@@ -199,16 +225,12 @@ def run(prop, tier, seed, replay=None):
     # ---------------- implementation + oracle
     obss = []
     oracle_fail = []
+    unjudged = []        # (index, why): the oracle could not be applied — a broken correspondence, never a verdict
     keys = set()
     for i, c in enumerate(cases):
         o = prop.safe_impl(c)
         obss.append(o)
-        try:
-            fails = prop.oracle(c, o)
-        except MachineryError:
-            raise
-        except Exception as e:
-            fails = [f"oracle-crash: {type(e).__name__}: {e}"]
+        fails = judge(prop, c, o, unjudged, i)
         if fails:
             oracle_fail.append((i, fails))
         try:
@@ -233,10 +255,7 @@ def run(prop, tier, seed, replay=None):
             leaked += 1
             cases.append(cases[i])
             obss.append(o2)
-            try:
-                fails = prop.oracle(cases[i], o2)
-            except Exception as e:
-                fails = [f"oracle-crash: {type(e).__name__}: {e}"]
+            fails = judge(prop, cases[i], o2, unjudged, len(cases) - 1)
             if fails:
                 oracle_fail.append((len(cases) - 1, fails))
     _hist_add(hist, "rechecked_cases", n_re)
@@ -245,6 +264,8 @@ def run(prop, tier, seed, replay=None):
 
     # ---------------- model
     mism, n_model = compare(prop, cases, obss)
+    seen_m = {i for i, _, _ in mism}
+    mism += [(i, why, None) for i, why in unjudged if i not in seen_m]
 
     samples = []
     for i in list(range(min(2, len(cases)))) + ([len(cases) - 1] if len(cases) > 2 else []):
@@ -284,10 +305,7 @@ def run(prop, tier, seed, replay=None):
             c = canon(c)
             tried += 1
             o = prop.safe_impl(c)
-            try:
-                f = prop.oracle(c, o)
-            except Exception as e:
-                f = [f"oracle-crash: {type(e).__name__}: {e}"]
+            f = judge(prop, c, o, [], 0)
             if f:
                 fp = prop.fingerprint(c, o, f)
                 if any(k.get("fingerprint") == fp for k in known):
